@@ -207,6 +207,7 @@ func (r *runner) mkEvent(e *HEvent) *aucoalesce.Event {
 	ev.Process.PID = e.PIDText
 	ev.Summary.Action = "did-" + e.Type
 	ev.Summary.Object.Primary = fmt.Sprintf("ev-%d", e.ID)
+	applyFields(ev, e)
 	r.events[ev] = e.ID
 	return ev
 }
@@ -594,6 +595,11 @@ func main() {
 		if !withCoq {
 			sum.Dist("judged_by_the_oracle_only_(no_Coq_case)")
 		}
+		sum.Dist("serials_" + h.Serials)
+		sum.Dist("record_timestamps_" + h.Stamps)
+		if st.oldSesOpen {
+			sum.Dist("a_waiting_LOGIN_record_names_an_open_correlated_session_in_old-ses")
+		}
 		sum.Dist(fmt.Sprintf("sessions_%d", len(h.Plans)))
 		sum.Dist(fmt.Sprintf("ops_%02d-%02d", len(h.Ops)/10*10, len(h.Ops)/10*10+9))
 		sum.Dist(fmt.Sprintf("max_open_%d", st.maxOpen))
@@ -611,9 +617,13 @@ func main() {
 		}
 	}
 	modes := modesFor(*prop)
+	// serials, timestamps and the records' other fields: from a generator of their own (fields.go)
+	dr := hutil.NewRand(seed ^ hashStr(*prop) ^ hashStr("fields"))
 	for i := 0; i < *n; i++ {
 		m := modes[i%len(modes)]
-		process(m, genHistory(r, m, *maxSess), true)
+		h := genHistory(r, m, *maxSess)
+		h.Serials, h.Stamps = decorate(dr, h.Ops, h.Plans)
+		process(m, h, true)
 	}
 	// further families, each from a generator of its own (the histories above stay what they were)
 	for _, fam := range familiesFor(*prop) {
@@ -623,7 +633,9 @@ func main() {
 			cnt = 1
 		}
 		for i := 0; i < cnt; i++ {
-			process(fam.name, fam.gen(fr), fam.coq)
+			h := fam.gen(fr)
+			h.Serials, h.Stamps = decorate(fr, h.Ops, h.Plans)
+			process(fam.name, h, fam.coq)
 		}
 	}
 	cases.Flush()
@@ -682,6 +694,7 @@ func familiesFor(prop string) []family {
 func ruleText(prop string) string {
 	return "histories generated per mode (wf: unique pids/sessions; reuse: chains of sessions sharing a PID; mixed: plus cron/console/su-like sessions and records without session; " +
 		"cleanup: cleanup calls with cut-offs at earlier time boundaries; faults: invalid logins, unparsable PIDs, write budget), 1-6 sessions interleaved in bursts, login at a random split point of its session; " +
+		"every record carries a kernel serial (per history: all zero, increasing, all equal, decreasing, wrapping through 2^32, late lower-numbered records, arbitrary), a timestamp of its own (2023, around / before / after the wall clock, descending) and the other fields the coalescer delivers (old-ses, old-auid, auid, tty, terminal, ppid, exe, addr, acct) with values naming OTHER sessions, pids and users of the history - none of which the properties mention; " +
 		"family pending: 2-4 sessions waiting for their logins at the same time, each holding 0-12 events (pending-big: up to 40 and the sizes at which a slice grows; judged by the oracle only), opened in any order, filled in turns or one after the other, logins in any order; " +
 		"every call is followed by a dump of the correlator state (per-step simulation against the model) and the " + prop + " oracle runs on the emitted events; " +
 		"non-trivial = at least 2 sessions open at once and at least one hold-queue flush; distinct by op sequence"
@@ -693,11 +706,21 @@ type hstats struct {
 	maxHeld    int // events held by one session
 	flushes    int
 	nontrivial bool
+	oldSesOpen bool // a LOGIN record that had to wait for its login named, in old-ses, a session that was open and correlated
 }
 
 func stats(h History, res runResult) hstats {
 	var s hstats
-	for _, st := range res.Steps {
+	for i, st := range res.Steps {
+		if o := h.Ops[i]; o.Kind == "audit" && o.Event.Type == "LOGIN" {
+			if u, ok := st.Pre.Sess[o.Event.Fields["old-ses"]]; ok && u.LoginID >= 0 {
+				if _, was := st.Pre.Sess[o.Event.Ses]; !was {
+					if nu, now := st.Post.Sess[o.Event.Ses]; now && nu.LoginID < 0 {
+						s.oldSesOpen = true
+					}
+				}
+			}
+		}
 		if len(st.Post.Sess) > s.maxOpen {
 			s.maxOpen = len(st.Post.Sess)
 		}
